@@ -36,6 +36,9 @@ def coq(ctx):
     else:
         core.register(ctx, "C06_root.v", th_c, False, out_c)
         ctx.eos = None
+    ok_h, out_h, th_h = core.compile_variant(ctx, "C06_hallyarbrough.v", "C06_hallyarbrough.v")
+    core.register(ctx, "C06_hallyarbrough.v", th_h, ok_h, out_h)
+    ctx.hy_ok = ok_h
     ctx.k1_ok = ok_k
     if ok_k:
         core.register(ctx, "K1_dak_coefficient.v", th_k, True, out_k)
@@ -57,6 +60,78 @@ def cert(ctx, pts):
                           value=0.0, atol=1e-9, unfold=["Zeos", c0, "C1", "C2", "C3", "A1", "A2", "A3", "A4", "A5", "A6", "A7", "A8", "A9", "A10", "A11"],
                           label=f"residual at T_r={tr:.4g}, p_r={pr:.4g}"))
     core.cert_phase(ctx, goals, [], prelude="From BBLib Require Import DAK_spec.")
+
+
+def hy_trace(pr, tr):
+    """Run the library's z_factor_hallyarbrough under a line tracer and record (y, fdum) each time the `while` test is
+    evaluated: the loop's own iterates, observed without touching the library."""
+    import ast
+    import inspect
+    import sys
+    from bluebonnet.fluids import gas
+    fn = gas.z_factor_hallyarbrough
+    src, first = inspect.getsourcelines(fn)
+    tree = ast.parse("".join(src).lstrip() if not src[0].startswith("def") else "".join(src))
+    loops = [n for n in ast.walk(tree) if isinstance(n, ast.While)]
+    if len(loops) != 1:
+        return None, None
+    wl = first + loops[0].lineno - 1
+    code = fn.__code__
+    rec = []
+
+    def local(frame, event, arg):
+        if event == "line" and frame.f_lineno == wl:
+            rec.append((float(frame.f_locals["y"]), float(frame.f_locals["fdum"])))
+        return local
+
+    def tracer(frame, event, arg):
+        return local if frame.f_code is code else None
+    old = sys.gettrace()
+    sys.settrace(tracer)
+    try:
+        with warnings.catch_warnings():
+            warnings.simplefilter("ignore")
+            z = float(fn(float(pr), float(tr)))
+    finally:
+        sys.settrace(old)
+    return rec, z
+
+
+def hy_tie(ctx):
+    """The Hall-Yarbrough loop as the model has it (C06_hallyarbrough.v): start (0.001, 1), continue while |fdum| > 0.001,
+    each pass = hy_newton_step (values certified in Coq against the regenerated step), result = hy_zfact at the last y."""
+    rng = dom.rng_for(ctx, 66)
+    goals = []
+    n = 6 if ctx.quick else 40
+    traced = 0
+    for k in range(n):
+        tr, pr = float(rng.uniform(1.1, 3.0)), float(dom.loguniform(rng, 0.05, 25.0))
+        rec, z = hy_trace(pr, tr)
+        inp = dict(T_r=tr, p_r=pr)
+        if rec is None:
+            ctx.broken.append("z_factor_hallyarbrough no longer has exactly one while loop: the loop model of C06_hallyarbrough.v does not apply")
+            return
+        traced += 1
+        t = 1.0 / tr
+        ok_shape = (len(rec) >= 2 and rec[0] == (0.001, 1.0) and all(abs(f) > 0.001 for _, f in rec[:-1]) and abs(rec[-1][1]) <= 0.001
+                    and all(0 < y < 1 for y, _ in rec))
+        zf = 0.06125 * pr * t * math.exp(-1.2 * (1 - t) ** 2) / rec[-1][0] if rec else float("nan")
+        if not ok_shape or not dom.relclose(z, zf, 1e-12):
+            ctx.violations.append(dict(what="Hall-Yarbrough loop does not run as modelled (start at y = 0.001, continue while |residual| > 0.001, densities inside (0,1), "
+                                            "result 0.06125 p t exp(-1.2 (1-t)^2) / y at the last density)", key="hy-loop", input=inp,
+                                       observed=dict(iterates=rec[:3] + rec[-2:], Z=z, Z_from_last_density=zf)))
+            continue
+        # certify a few passes: residual at y_k and the updated density
+        for j in sorted({0, len(rec) // 2, len(rec) - 2}):
+            if 0 <= j < len(rec) - 1:
+                (y0, _), (y1, f1) = rec[j], rec[j + 1]
+                args = " ".join(core.frac(a) for a in (pr, t, y0))
+                goals.append(dict(expr=f"Gen_gas.hy_residual {args}", value=f1, rtol=1e-9, atol=1e-9, label=f"HY residual, pass {j} at T_r={tr:.4g}, p_r={pr:.4g}"))
+                goals.append(dict(expr=f"Gen_gas.hy_update {args}", value=y1, rtol=1e-9, atol=1e-12, label=f"HY update, pass {j} at T_r={tr:.4g}, p_r={pr:.4g}"))
+    for g in goals:
+        g["unfold"] = ["Gen_gas.hy_residual", "Gen_gas.hy_update"]
+    ctx.cov["hall_yarbrough_traced_runs"] = traced
+    core.cert_phase(ctx, goals, ["Gen_gas"])
 
 
 def impl_checks(ctx):
@@ -196,9 +271,11 @@ def impl_checks(ctx):
 def run(ctx):
     coq(ctx)
     pts, k1_seen = impl_checks(ctx)
+    if ctx.hy_ok:
+        hy_tie(ctx)
     cert(ctx, pts[:7] + pts[7:7 + (6 if ctx.quick else 60)])
     ctx.validated_only += ["solver tolerance of brentq (contract: exact root) -- residual certified <= 1e-9 at sampled points",
-                           "Hall-Yarbrough termination/agreement (Newton iteration: no general theorem), validated on the grid"]
+                           "Hall-Yarbrough: that the Newton loop exits, and its few-percent agreement with DAK (no general theorem): validated on the grid; the loop body, the unit-interval invariant and what an exit returns are proved / certified (C06_hallyarbrough.v)"]
     for e in core.known_findings(ID):
         if e["status"] == "known" and e["key"].startswith("K1"):
             w = e["witness"]
